@@ -15,7 +15,10 @@ RULE = ("One sub-check per transform class (13). Hypothesis draws constructor "
         "transformed variable so that the conditioning region of the "
         "property holds by construction. Oracle: |backward(forward(x)) - x| "
         "<= 1e-6 * s_x and |forward(backward(y)) - y| <= 1e-6 * (1+|y|), "
-        "finite results, type/shape preserved, backward_censored = max(x, c). "
+        "finite results, type/shape preserved, backward_censored = max(x, c); "
+        "between forward and backward other instances of the same and of "
+        "related classes are created, configured differently and used "
+        "(object independence). "
         "Non-trivial = parameters differ from the defaults and some point is "
         "away from the fixed point of the map; distinct = distinct case.")
 
@@ -46,6 +49,16 @@ def roundtrip(t, case, setting, labels, backward_first=False):
                 f"params={dict(zip(t.params.names, t.params.values))} "
                 f"constants={dict(zip(t.constants.names, t.constants.values))}")
     y = t.forward(x.copy())
+    # other transform objects are created, configured and used while this
+    # one is in use (they stay alive until the end of the case)
+    before = {str(n): float(t[str(n)]) for n in
+              list(t.params.names) + list(t.constants.names)}
+    case.setdefault("_alive", []).extend(bystanders(case, setting))
+    after = {n: float(t[n]) for n in before}
+    if after != before:
+        raise Violation(f"parameters/constants of one transform change when "
+                        f"another transform object is configured: {before} "
+                        f"-> {after}")
     if type(y) is not type(x) or y.shape != x.shape:
         raise Violation(f"forward changes type/shape: {type(y)} {y.shape}")
     if not np.all(np.isfinite(y)):
@@ -101,10 +114,50 @@ def roundtrip(t, case, setting, labels, backward_first=False):
     return away
 
 
+SIBLINGS = {"LogSinh": ["Manly"], "Manly": ["LogSinh"],
+            "BoxCox2": ["BoxCox1lam", "BoxCox1nu"], "BoxCox1lam": ["BoxCox2"],
+            "BoxCox1nu": ["BoxCox2"], "Log": ["Reciprocal"],
+            "Reciprocal": ["Log"]}
+
+
+def bystanders(case, setting):
+    """Fresh instances of the same class (configured with the other settings
+    of the case and with scaled values of the current one) and of the classes
+    that share code with it, each used once."""
+    cls = case["cls"]
+    out = []
+    others = [s for s in case["settings"] if s is not setting]
+    for s in others:
+        o = tc.make({"cls": cls, "ctor": case["ctor"], "via": "class",
+                     "settings": [s]})
+        try:
+            o.forward(tc.points(o, case, s)["x"])
+        except Skip:
+            pass
+        out.append(o)
+    for sib in SIBLINGS.get(cls, []):
+        o = getattr(T, sib)()
+        for n in list(o.params.names) + list(o.constants.names):
+            n = str(n)
+            if n in setting["p"]:
+                lo, hi = (o.params.mins[list(o.params.names).index(n)],
+                          o.params.maxs[list(o.params.names).index(n)]) \
+                    if n in o.params.names else (-np.inf, np.inf)
+                v = setting["p"][n] * 3.0 + 0.25
+                if n == "lam" and sib == "Manly":
+                    # lam away from (0, 1e-3) as in the generator
+                    v = 2.5
+                o[n] = float(min(max(v, lo), hi))
+        o.forward(np.array([0.5, 1.5]))
+        out.append(o)
+    return out
+
+
 def make_oracle(cls):
     def oracle(case):
         labels = [f"via:{case['via']}", f"set:{case.get('how', 'by-name')}"]
         t = tc.make(case)
+        case = dict(case, _alive=[])
         nt = False
         nskip = 0
         for k, setting in enumerate(case["settings"]):
